@@ -347,6 +347,7 @@ func runSec(it *SecItem, ks *sut.KeySet, workRoot string) (res SecResult) {
 		forgeries = append(forgeries, forgery{"garbage-signature", seal(wrapWithSig(evil, str(g)))})
 	}
 	// a real signature of ANOTHER header (taken from the tape), and a signature by another key
+	replayed := 0
 	for _, r := range scan.Recs {
 		if r.Unwrap != "" {
 			continue
@@ -360,7 +361,9 @@ func runSec(it *SecItem, ks *sut.KeySet, workRoot string) (res SecResult) {
 			inner = c
 		}
 		if s, ok := inner.PAXRecords["STFS.Signature"]; ok {
-			forgeries = append(forgeries, forgery{"reused-signature", seal(wrapWithSig(evil, str(s)))})
+			if replayed == 0 {
+				forgeries = append(forgeries, forgery{"reused-signature", seal(wrapWithSig(evil, str(s)))})
+			}
 			// the signed record replayed verbatim, with extra UNSIGNED action records next to it
 			for _, extra := range []map[string]string{
 				{"STFS.ReplacesName": "/" + markers["dir"] + "/" + markers["renamed"], "STFS.Action": "UPDATE", "STFS.Version": "1"},
@@ -374,12 +377,15 @@ func runSec(it *SecItem, ks *sut.KeySet, workRoot string) (res SecResult) {
 			}
 			// edited embedded header, signature kept
 			var emb tar.Header
-			if json.Unmarshal([]byte(inner.PAXRecords["STFS.EmbeddedHeader"]), &emb) == nil {
+			if replayed == 0 && json.Unmarshal([]byte(inner.PAXRecords["STFS.EmbeddedHeader"]), &emb) == nil {
 				emb.Mode = 0o4777
 				emb.Uid = 0
 				forgeries = append(forgeries, forgery{"edited-embedded-kept-signature", seal(wrapWithSig(&emb, str(s)))})
 			}
-			break
+			replayed++
+			if replayed >= 8 {
+				break
+			}
 		}
 	}
 	{
